@@ -555,7 +555,46 @@ def last_newline_shape(p: Program, rep: Report, rule: str) -> None:
                 return "LEN"
             return None
 
-        if v[0] == "call" and v[1] == ("builtin", "min") and len(v[2]) == 2:
+        def absent(x: Value) -> Optional[bool]:
+            """what the path knows about `<buffer>.rfind(sub) == -1` (True: no such byte, False: there is one, None: not tested)"""
+            for f, t in pa.facts:
+                if f[0] == "cmp" and f[1] in ("Eq", "NotEq") and ((f[2][:3] == x[:3] and f[3] == ("const", -1)) or (f[3][:3] == x[:3] and f[2] == ("const", -1))):
+                    return t if f[1] == "Eq" else (not t)
+                if f[0] == "cmp" and f[1] in ("Lt", "GtE") and f[2][:3] == x[:3] and f[3] == ("const", 0):
+                    return t if f[1] == "Lt" else (not t)
+            return None
+
+        is_rfind = lambda x: x[0] == "call" and x[1][0] == "attr" and x[1][2] == "rfind"  # noqa: E731
+        if v[0] == "call" and v[1] in (("builtin", "min"), ("builtin", "max")) and len(v[2]) == 2 and all(is_rfind(x) for x in v[2]) \
+                and {kind(v[2][0]), kind(v[2][1])} == {"LF", "CR"} and any(absent(x) is not None for x in v[2]):
+            # the rfind spelling, decided per path from what it knows about the two -1 tests
+            a_, b_ = v[2]
+            aa, ab = absent(a_), absent(b_)
+            if v[1] == ("builtin", "min") and aa is False and ab is False:
+                seen.add(("CR", "LF"))
+            elif v[1] == ("builtin", "max") and {aa, ab} == {True, False}:
+                present = a_ if aa is False else b_
+                seen.add(tuple(sorted((kind(present), "LEN"))))   # max(-1, i) == i == min(len(buffer), i)
+            elif v[1] == ("builtin", "max") and aa is False and ab is False:
+                rep.violation(rule, construct(ln, text="max(last_nl, last_cr) with both present"), where(ln), "last_newline returns the LATER of the last CR / last LF on a path where both are buffered: a delimiter whose CR is already buffered is emitted as data when the LF arrives in the next chunk")
+                seen.add(("bad",))
+            elif v[1] == ("builtin", "min") and (aa is True or ab is True):
+                rep.violation(rule, construct(ln, text="min(.., -1)"), where(ln), "last_newline returns min(..) on a path where one rfind() is known to be -1: the result is -1, not the index of the line break that IS buffered")
+                seen.add(("bad",))
+            elif v[1] == ("builtin", "max") and aa is True and ab is True:
+                rep.violation(rule, construct(ln, text="max(-1, -1)"), where(ln), "last_newline returns -1 when the buffer has no line break (not len(buffer))")
+                seen.add(("bad",))
+            else:
+                rep.undecide(rule, f"last_newline: {show(v)[:40]} on a path that has not settled both `rfind(..) == -1` tests ({'; '.join(pa.fact_text())[:80]})")
+                seen.add(("bad",))
+        elif kind(v) == "LEN" and any(is_rfind(x) and absent(x) is True for f, _t in pa.facts for x in subterms(f) if isinstance(x, tuple) and len(x) >= 3):
+            ab_ = {kind(x) for f, _t in pa.facts for x in subterms(f) if isinstance(x, tuple) and len(x) >= 3 and is_rfind(x) and absent(x) is True}
+            if ab_ == {"LF", "CR"}:
+                seen.add(("LEN", "LEN"))
+            else:
+                rep.violation(rule, construct(ln, text="len(buffer) although a line break is buffered"), where(ln), "last_newline returns len(buffer) on a path where only one kind of line break is known to be absent")
+                seen.add(("bad",))
+        elif v[0] == "call" and v[1] == ("builtin", "min") and len(v[2]) == 2:
             ks = tuple(sorted(k for k in (kind(v[2][0]), kind(v[2][1])) if k))
             seen.add(ks)
         elif v[0] == "call" and v[1] == ("builtin", "min") and len(v[2]) == 1 and v[2][0][0] == "comp" and dict(v[3]).get("default") is not None:
